@@ -431,7 +431,7 @@ def run_check(pid, tier="quick", seed=0, n=None, budget_s=None, workers=None, wr
         "wall_s": round(wall, 2),
         "violations": len(new_violations),
     }
-    if write_evidence:
+    if write_evidence and not os.environ.get("VERIF_NO_EVIDENCE"):
         os.makedirs(EVIDENCE_DIR, exist_ok=True)
         with open(os.path.join(EVIDENCE_DIR, f"{pid}.json"), "w") as f:
             json.dump(ev, f, indent=1, default=_json_default)
